@@ -288,6 +288,17 @@ def hash_ordered_vec_consumers(b, loop, all_loops):
                 local_ids |= {i for i, n, _ in F.pat_binds(s["pat"])}
         for name, a in order_sensitive_assignments(body2, local_ids):
             out.append((vecs[v["id"]], name))
+        # leaving the loop (return / break / `?`) at an element: which element is reached first depends on the order
+        desugared = set()
+        for m_ in F.walk(body2):
+            if isinstance(m_, dict) and m_.get("k") == "Match" and (m_.get("src") or "").startswith("ForLoopDesugar"):
+                for arm_ in m_["arms"]:
+                    if (F.pat_variant(arm_["pat"]) or (None, None))[1] == "None":
+                        desugared |= {id(y) for y in F.walk(arm_["body"]) if isinstance(y, dict) and y.get("k") == "Break"}
+        for x in F.walk(body2):
+            if isinstance(x, dict) and x.get("k") in ("Return", "Break") and id(x) not in desugared:
+                out.append((vecs[v["id"]], "the point where the loop is left (%s)" % ("return" if x["k"] == "Return" else "break")))
+                break
     return out
 
 
@@ -452,7 +463,7 @@ def rule_hash(chk, reach):
                     if cons:
                         ok = False
                         cls = "hash-ordered-vec-consumer"
-                        detail = "the Vec `%s` filled in hash order is later walked by a loop that assigns %s from the element being visited (not a min/max/sum-style update): the value left after the loop depends on the hash order" % (
+                        detail = "the Vec `%s` filled in hash order is later walked by a loop that determines %s from the element being visited (not a min/max/sum-style update): the result depends on the hash order" % (
                             cons[0][0], ", ".join(sorted({c[1] or "?" for c in cons})))
             classes[cls] = classes.get(cls, 0) + 1
             in_reach = owner in reach
